@@ -64,8 +64,19 @@ func (r *runner) tmpName(prefix string) string {
 	return filepath.Join(d, fmt.Sprintf("%s-%d", prefix, n))
 }
 
+func (r *runner) stepBudget() time.Duration {
+	if r.timeout > 60*time.Second {
+		return 60 * time.Second
+	}
+	return 10 * time.Second
+}
+
 // exec runs one worker process.
 func (r *runner) exec(v *variant, timeout time.Duration, args ...string) *runInfo {
+	return r.execEnv(v, timeout, []string{"VERIF_STEP_BUDGET=" + r.stepBudget().String()}, args...)
+}
+
+func (r *runner) execEnv(v *variant, timeout time.Duration, extraEnv []string, args ...string) *runInfo {
 	ctx, cancel := context.WithTimeout(context.Background(), timeout)
 	defer cancel()
 	cmd := exec.CommandContext(ctx, v.Bin, args...)
@@ -73,6 +84,7 @@ func (r *runner) exec(v *variant, timeout time.Duration, args ...string) *runInf
 	cmd.Stdout = &stdout
 	cmd.Stderr = &stderr
 	env := append(os.Environ(), "GOMAXPROCS=1", "GOTRACEBACK=single")
+	env = append(env, extraEnv...)
 	info := &runInfo{}
 	var raceBase string
 	if strings.Contains(v.Name, "race") {
@@ -156,6 +168,11 @@ type outcome struct {
 // runPlan executes a plan (generated from prop/seed/index, or given) in a fresh
 // worker and applies the driver-level oracles.
 func (r *runner) runPlan(v *variant, prop string, seed int64, index int, tier string, given *plan.Plan) *outcome {
+	return r.runPlanX(v, prop, seed, index, tier, given, false)
+}
+
+// runPlanX: with noConfirm a hang is taken at face value (shrinking a hang).
+func (r *runner) runPlanX(v *variant, prop string, seed int64, index int, tier string, given *plan.Plan, noConfirm bool) *outcome {
 	oc := &outcome{Variant: v.Name, Index: index}
 	var args []string
 	var planFile string
@@ -177,6 +194,10 @@ func (r *runner) runPlan(v *variant, prop string, seed int64, index int, tier st
 	}
 	info := r.exec(v, r.timeout, args...)
 	oc.Dur = info.Dur
+	if info.Out == nil && strings.Contains(info.Stderr, "step watchdog:") {
+		// the worker's own step watchdog fired: same treatment as the outer one
+		info.TimedOut = true
+	}
 	getPlan := func() *plan.Plan {
 		if given != nil {
 			return given
@@ -187,15 +208,25 @@ func (r *runner) runPlan(v *variant, prop string, seed int64, index int, tier st
 		return r.genPlan(v, prop, seed, index, tier)
 	}
 	if info.TimedOut {
-		// confirm with a ten-fold budget in a fresh process
-		info2 := r.exec(v, 10*r.timeout, args...)
+		// confirm with a larger budget in a fresh process
+		hangMsg := tailLines(info.Stderr, 2)
+		if noConfirm {
+			oc.Plan = getPlan()
+			oc.Viols = append(oc.Viols, plan.Violation{Oracle: "hang", Where: "worker", Sig: "hang", Detail: "(shrinking candidate) " + hangMsg})
+			return oc
+		}
+		info2 := r.execEnv(v, 4*r.timeout, []string{"VERIF_STEP_BUDGET=" + (4 * r.stepBudget()).String()}, args...)
+		if info2.Out == nil && strings.Contains(info2.Stderr, "step watchdog:") {
+			info2.TimedOut = true
+			hangMsg = tailLines(info2.Stderr, 2)
+		}
 		if !info2.TimedOut {
 			// a slow machine, not a hang: carry on with the second run
 			info = info2
 		} else {
 			oc.Plan = getPlan()
 			oc.Viols = append(oc.Viols, plan.Violation{Oracle: "hang", Where: "worker", Sig: "hang",
-				Detail: fmt.Sprintf("worker did not finish within %v (confirmed with ten-fold budget)", r.timeout)})
+				Detail: fmt.Sprintf("the run did not finish (confirmed in a fresh process with four times the budget): %s", strings.TrimSpace(hangMsg))})
 			return oc
 		}
 	}
